@@ -150,6 +150,9 @@ def clause_of(desc):
 def run_unit(unit_path, repo, verif, workdir, threads=8, twin=True, log=None):
     t0 = time.time()
     name = os.path.basename(unit_path)
+    for u, spec in config.UNITS.items():   # the registered name, also when extraction fails
+        if spec.get('file') == name:
+            name = u
     res = UnitResult(name)
     extract.SourceFile.cache.clear()
     try:
